@@ -50,6 +50,10 @@ def snap_any(x):
     return snap_array(x)
 
 
+class _NdSub(np.ndarray):
+    pass
+
+
 def make_buffer(rng, nprng, shape, dtype, layout):
     """writable buffer with the given logical shape; layout: contiguous / strided (every 2nd sample of a bigger base) /
     transposed (Fortran order) / offset view"""
@@ -67,6 +71,10 @@ def make_buffer(rng, nprng, shape, dtype, layout):
         return big[1::2]
     if layout == 'fortran':
         return np.asfortranarray(rnd(shape))
+    if layout == 'subclass':
+        # a C-contiguous buffer held by an ndarray SUBCLASS (what np.memmap, np.recarray or any .view(Sub) gives): helpers such as
+        # np.ascontiguousarray return a new base-class object that still shares this memory
+        return rnd(shape).view(_NdSub)
     big = rnd((shape[0] + 5,) + tuple(s + 1 for s in shape[1:]))
     return big[(slice(3, 3 + shape[0]),) + tuple(slice(0, s) for s in shape[1:])]
 
@@ -78,7 +86,7 @@ def make_signal(rng, nprng, cls=None, L=None):
     cplx = cls in ('BasebandSignal', 'DualPolarizationSignal') or (cls == 'Signal' and rng.random() < 0.4)
     single = rng.random() < 0.3
     dtype = np.dtype((np.complex64 if single else np.complex128) if cplx else (np.float32 if single else np.float64))
-    layout = rng.choice(['contiguous', 'strided', 'fortran', 'offset'])
+    layout = rng.choice(['contiguous', 'strided', 'fortran', 'offset', 'subclass'])
     buf = make_buffer(rng, nprng, (L,) + tuple(ss), dtype, layout)
     if rng.random() < 0.25:
         # flagged dropouts: a few NaN / +-Inf samples (an operation that 'cleans' them in place changes the caller's buffer)
